@@ -46,6 +46,9 @@ def instances(tier):
             if m in ("maximum_horizontal_value", "rotdpp") and nrec == 2:
                 continue
             out.append({"name": f"{m}_r{nrec}", "func": "run_method", "kwargs": {"method": m, "nrec": nrec, "nfft": 4}})
+    # two records whose time steps differ only by round-off (1/fs computed differently by two readers)
+    for m in ("geometric_mean", "single_azimuth", "diffuse_field"):
+        out.append({"name": f"{m}_near_equal_dt", "func": "run_method", "kwargs": {"method": m, "nrec": 2, "nfft": 4, "dts": [0.5, 0.49999999999999994]}})
     if tier == "thorough":
         for m in METHODS:
             out.append({"name": f"{m}_n8", "func": "run_method", "kwargs": {"method": m, "nrec": 1, "nfft": 8}})
@@ -140,14 +143,14 @@ def mutable_ids(root, depth=6):
     return out
 
 
-def run_method(rep, tier, method, nrec, nfft):
+def run_method(rep, tier, method, nrec, nfft, dts=None):
     Ld = LD(nfft)
     P, S = Ld["processing"], Ld["settings"]
     L = 3
 
     def run(ctx):
         ss = [PP.samples(f"r{i}", L, ctx) for i in range(nrec)]
-        recs = [PP.mkrec(Ld, ctx, f"r{i}", L, DT, comps=ss[i], degrees=15.0, meta={"file name(s)": f"f{i}", "note": [1, 2]}) for i in range(nrec)]
+        recs = [PP.mkrec(Ld, ctx, f"r{i}", L, DT if dts is None else dts[i], comps=ss[i], degrees=15.0, meta={"file name(s)": f"f{i}", "note": [1, 2]}) for i in range(nrec)]
         st = make_settings(S, method, nfft)
         before_r, before_s = snap_records(recs), snap_settings(st)
         res1 = C01.process(P, recs, st)
@@ -169,7 +172,7 @@ def run_method(rep, tier, method, nrec, nfft):
 
     for ctx, (ss, before_r, after_r, before_s, after_s, t1, t2, shared) in rep.explore(run, max_paths=80 if tier == "quick" else 400, timeout_ms=5000):
         rep.reachable(ctx)
-        W = C01.witness_fn("sidefx", ss, {"method": method, "nfft": nfft})
+        W = C01.witness_fn("sidefx", ss, {"method": method, "nfft": nfft, "dts": dts})
         # (1) frame on samples
         bad = []
         for b, a in zip(before_r, after_r):
@@ -239,10 +242,11 @@ def _cells(res):
 def replay(spec):
     hvsrpy, P, T, saved = C01._patched(spec)
     try:
-        recs = [hvsrpy.SeismicRecording3C(*[hvsrpy.TimeSeries(np.array(r[c], dtype=float), DT) for c in ("ns", "ew", "vt")], degrees_from_north=15.0,
-                                          meta={"file name(s)": "f", "note": [1, 2]}) for r in spec["records"]]
+        dts = spec.get("dts") or [DT] * len(spec["records"])
+        recs = [hvsrpy.SeismicRecording3C(*[hvsrpy.TimeSeries(np.array(r[c], dtype=float), dts[i]) for c in ("ns", "ew", "vt")], degrees_from_north=15.0,
+                                          meta={"file name(s)": "f", "note": [1, 2]}) for i, r in enumerate(spec["records"])]
         st = _settings(hvsrpy, spec)
-        before = [(r.ns.amplitude.copy(), r.ew.amplitude.copy(), r.vt.amplitude.copy(), copy.deepcopy(r.meta), r.degrees_from_north, r.ns.dt_in_seconds) for r in recs]
+        before = [(r.ns.amplitude.copy(), r.ew.amplitude.copy(), r.vt.amplitude.copy(), copy.deepcopy(r.meta), r.degrees_from_north, (r.ns.dt_in_seconds, r.ew.dt_in_seconds, r.vt.dt_in_seconds)) for r in recs]
         sb = copy.deepcopy({k: (getattr(st, k).tolist() if hasattr(getattr(st, k), "tolist") else getattr(st, k)) for k in st.attrs})
         res1 = hvsrpy.process(recs, st)
         c1 = _cells(res1).copy()
@@ -254,8 +258,8 @@ def replay(spec):
         for r, b in zip(recs, before):
             if r.meta != b[3]:
                 return {"reproduced": True, "key": f"record-meta-modified:{m}", "detail": f"{m}: record.meta gained/changed {sorted(set(r.meta) ^ set(b[3])) or 'values'}"}
-            if r.degrees_from_north != b[4] or r.ns.dt_in_seconds != b[5]:
-                return {"reproduced": True, "key": "dt-or-orientation-modified", "detail": "dt / degrees_from_north changed"}
+            if r.degrees_from_north != b[4] or (r.ns.dt_in_seconds, r.ew.dt_in_seconds, r.vt.dt_in_seconds) != b[5]:
+                return {"reproduced": True, "key": "dt-or-orientation-modified", "detail": f"time step {b[5]} -> {(r.ns.dt_in_seconds, r.ew.dt_in_seconds, r.vt.dt_in_seconds)} / orientation {b[4]} -> {r.degrees_from_north}"}
         sa = {k: (getattr(st, k).tolist() if hasattr(getattr(st, k), "tolist") else getattr(st, k)) for k in st.attrs}
         if any(sa[k] != sb[k] for k in sb if k != "fft_settings"):
             return {"reproduced": True, "key": "settings-modified", "detail": f"settings changed: {[k for k in sb if sa[k] != sb[k]]}"}
